@@ -13,16 +13,18 @@ from vf import solvercase
 from vf.core import check_close, check_equal
 
 RULE = (
-  "case = random contact scene with all condims, both cones, adhesion actuators, after forward(); MJWarp's solved efc.force is written into the MuJoCo MjData that holds the "
+  "case = random contact scene with all condims, both cones, adhesion actuators or passive geom/pair contact adhesion, after forward(); MJWarp's solved efc.force is written into the MuJoCo MjData that holds the "
   "same (matched) contacts/rows, then mujoco.mj_contactForce is compared with mjw.contact_force for every contact of the world, in the contact frame and rotated to the world "
-  "frame (frame^T), 1e-4 relative; requested ids >= nacon must leave the output untouched; evaluation = one world; non-trivial = a condim>=3 contact with non-zero tangential force"
+  "frame (frame^T of MJWarp's own d.contact.frame for that contact, itself within 1e-3 of MuJoCo's by the matching), 2e-4 relative; requested ids >= nacon must leave the output untouched; evaluation = one world; non-trivial = a condim>=3 contact with non-zero tangential force, or a contact with non-zero contact.adhesion"
 )
 ASSUMPTIONS = ["mujoco.mj_contactForce on MuJoCo's contact/efc bookkeeping is the reference decoder", "worlds whose contact/row sets differ from MuJoCo's are skipped (counted)"]
 BUDGET = {"quick": dict(examples=400, seconds=150, workers=16), "thorough": dict(examples=10000, seconds=1500, workers=16)}
 
 
 def strategy(tier):
-  return st.one_of(solvercase.strategy(tier), solvercase.strategy(tier, adhesion=True))
+  # "adhesion" is both the adhesion actuator (a force on the body's contacts that the solver sees) and the passive contact
+  # adhesion of geoms/pairs (contact.adhesion, which the decoder subtracts from the normal force)
+  return st.one_of(solvercase.strategy(tier), solvercase.strategy(tier, adhesion=True), solvercase.strategy(tier, contact_adhesion=True))
 
 
 def check(case, rec):
@@ -43,6 +45,7 @@ def check(case, rec):
     extra = np.array([nacon, nacon + 3, d.naconmax - 1 if d.naconmax - 1 >= nacon else nacon], dtype=np.int32)
     all_ids = np.concatenate([ids, extra])
     tangential = False
+    adhesive = bool(np.any(np.array(mjd.contact.adhesion[: len(W.cm["dist"])]) != 0.0))
     for to_world in (False, True):
       out = wp.array(np.full((len(all_ids), 6), sentinel, dtype=np.float32), dtype=wp.spatial_vector)
       mjw.contact_force(m, d, wp.array(all_ids, dtype=int), to_world, out)
@@ -52,7 +55,10 @@ def check(case, rec):
         ref = np.zeros(6)
         mujoco.mj_contactForce(mjm, mjd, b, ref)
         if to_world:
-          R = np.array(mjd.contact.frame[b]).reshape(3, 3)
+          # "rotated to the world frame" means by the frame MJWarp reports for this contact (d.contact.frame, read back
+          # independently).  MuJoCo's own frame for the matched contact may differ by narrowphase roundoff (matching
+          # allows 1e-3, C04's business), which a 1e4 N force amplifies past any force tolerance.
+          R = np.asarray(W.cw["frame"][a], dtype=np.float64).reshape(3, 3)
           ref = np.concatenate([R.T @ ref[:3], R.T @ ref[3:]])
         scale = max(1.0, float(np.max(np.abs(ref))))
         check_close(rec, f"contact_force(world={to_world})", o[a], ref, 2e-4, scale=scale, sig=f"wrench:{'world' if to_world else 'contact'}:dim{int(W.cm['dim'][b])}", world=w, contact=b, dim=int(W.cm["dim"][b]), cone=case["opt"]["cone"])
@@ -61,6 +67,6 @@ def check(case, rec):
         if all_ids[k] >= nacon:
           check_equal(rec, "contact_force(id>=nacon)", o[k], np.full(6, sentinel), sig="writes-beyond-nacon", world=w, id=int(all_ids[k]), nacon=nacon)
     mjd.efc_force[:] = keep
-    rec.cls(f"cone:{case['opt']['cone']}", f"tangential:{tangential}", *[f"dim:{int(x)}" for x in set(W.cm["dim"].tolist())])
-    if tangential:
+    rec.cls(f"cone:{case['opt']['cone']}", f"tangential:{tangential}", f"contact-adhesion:{adhesive}", *[f"dim:{int(x)}" for x in set(W.cm["dim"].tolist())])
+    if tangential or adhesive:
       rec.nt(extra=w)
